@@ -17,29 +17,32 @@ ALLS = ["active_flows", "flow_invocations", "requests_through_flows", "avg_flow_
 GLABELS = ["http_method", "url", "host", "status_code", "consumer_tag"]
 PLABELS = ["flow_name", "processor_key", "http_method", "url", "host", "status_code", "consumer_tag"]
 
-# bounded instances of MC_X09 (I x P): name -> (MaxTxn, MaxFlush, MaxReload, MaxRestart, MaxScrape, MaxCollect, files, flow sets)
+# bounded instances of MC_X09 (I x P): name -> (MaxTxn, MaxFlush, MaxReload, MaxRestart, MaxScrape, MaxCollect, files, flow sets, MaxTick)
 PROFILES = {
-    "quick": {"a": (2, 2, 1, 0, 1, 0, "{1, 2, 3}", "{1, 4}"),        # labels / labeled endpoints / lists x reload, parser cache
-              "b": (2, 2, 1, 0, 0, 0, "{1}", "{1, 2, 3, 4}"),        # flows and processors x reload
-              "c": (2, 2, 1, 0, 0, 2, "{1, 3}", "{4}"),              # histogram managers
-              "d": (2, 2, 0, 1, 1, 1, "{1, 3}", "{1}"),              # restart
-              "r": (1, 2, 2, 0, 0, 0, "{1, 2, 3}", "{4}"),           # two reloads (back to the start-up file)
-              "l": (3, 1, 0, 0, 0, 3, "{1}", "{4}")},                # three collections
-    "thorough": {"a": (3, 2, 1, 0, 1, 0, "{1, 2, 3}", "{1, 4}"),
-                 "b": (3, 2, 1, 0, 0, 0, "{1}", "{1, 2, 3, 4}"),
-                 "c": (3, 2, 1, 0, 0, 2, "{1, 3}", "{4}"),
-                 "d": (2, 2, 1, 1, 1, 1, "{1, 3}", "{1}"),
-                 "r": (2, 2, 2, 0, 0, 0, "{1, 2, 3}", "{4}"),
-                 "l": (3, 2, 0, 0, 0, 3, "{1}", "{4}")},
+    "quick": {"a": (2, 2, 1, 0, 1, 0, "{1, 2, 3}", "{1, 4}", 0),        # labels / labeled endpoints / lists x reload, parser cache
+              "b": (2, 2, 1, 0, 0, 0, "{1}", "{1, 2, 3, 4}", 0),        # flows and processors x reload
+              "c": (2, 2, 1, 0, 0, 2, "{1, 3}", "{4}", 0),              # histogram managers
+              "d": (2, 2, 0, 1, 1, 1, "{1, 3}", "{1}", 0),              # restart
+              "r": (1, 2, 2, 0, 0, 0, "{1, 2, 3}", "{4}", 0),           # two reloads (back to the start-up file)
+              "l": (3, 1, 0, 0, 0, 3, "{1}", "{4}", 0),                 # three collections
+              "q": (2, 1, 1, 0, 0, 0, "{1}", "{4, 5, 6}", 1)},          # quotas behind limiters, the clock
+    "thorough": {"a": (3, 2, 1, 0, 1, 0, "{1, 2, 3}", "{1, 4}", 0),
+                 "b": (3, 2, 1, 0, 0, 0, "{1}", "{1, 2, 3, 4}", 0),
+                 "c": (3, 2, 1, 0, 0, 2, "{1, 3}", "{4}", 0),
+                 "d": (2, 2, 1, 1, 1, 1, "{1, 3}", "{1}", 0),
+                 "r": (2, 2, 2, 0, 0, 0, "{1, 2, 3}", "{4}", 0),
+                 "l": (3, 2, 0, 0, 0, 3, "{1}", "{4}", 0),
+                 "q": (4, 1, 1, 0, 0, 0, "{1}", "{4, 5, 6}", 1)},
 }
 # variant of MetricsI -> the instance in which it shows
 BUGS = {"stale-cache": "a", "tag-dash-kept": "a", "status-dropped": "a", "last-wins": "a", "size-divisor": "a", "gw-missing": "a",
         "path-always": "a", "inv-after-cut": "b", "rtf-per-flow": "b", "proc-count-disabled": "b", "active-stale": "b",
-        "hist-swapped": "c", "legacy-total": "l"}
+        "hist-swapped": "c", "legacy-total": "l", "quota-used-counts-refused": "q"}
 BENIGN = {"size-since-reload": "a", "counters-cumulative": "b", "reload-as-documented": "r", "doc-path": "a", "doc-size": "a",
-          "one-instrument-per-kind": "b", "legacy-counts-first-sight": "c"}
+          "one-instrument-per-kind": "b", "legacy-counts-first-sight": "c", "quota-used-kept-on-refusal": "q", "quota-callbacks-unregistered": "q"}
 WITNESSES = {"W_NoEarly": "b", "W_NoPathDev": "a", "W_NoSizeDev": "a", "W_NoReloadDev": "r", "W_NoAlwaysDev": "a", "W_NoDupDev": "b",
-             "W_NoCoarse": "a", "W_NoCut": "b", "W_NoLegacyDev": "c", "W_NoLegacy": "c", "W_NoHist2": "c"}
+             "W_NoCoarse": "a", "W_NoCut": "b", "W_NoLegacyDev": "c", "W_NoLegacy": "c", "W_NoHist2": "c", "W_NoQuotaZero": "q",
+             "W_NoQuotaStale": "q", "W_NoUsed2": "q"}
 
 
 # ------------------------------------------------------------------------------------------------ rendering
@@ -68,10 +71,15 @@ def _edge(frm, to):
 
 def flow_yaml(f):
     """request: start -> F (Filter x-a=1); F hit -> G (GenerateResponse st) when gate else end; F miss -> end
-    response: start -> R (Filter status 500-599) -> end when rf, else start -> end; G -> end"""
+    response: start -> R (Filter status 500-599) -> end when rf, else start -> end; G -> end
+    limiter flow (lim): F is a Limiter on quota lq; F above_limit -> G; F below_limit -> end"""
     L = ["name: %s" % f["name"], "filter:", "  url: %s" % url_of(f["pat"]), "processors:"]
-    L += ["  %s:" % f["fk"], "    processor: Filter"] + _metrics_block("    ", f["fm"], f["fl"]) + \
-         ["    parameters:", "      - key: header", "        value: x-a=1"]
+    if f["lim"]:
+        L += ["  %s:" % f["fk"], "    processor: Limiter"] + _metrics_block("    ", f["fm"], f["fl"]) + \
+             ["    parameters:", "      - key: quota_id", "        value: %s" % f["lq"]]
+    else:
+        L += ["  %s:" % f["fk"], "    processor: Filter"] + _metrics_block("    ", f["fm"], f["fl"]) + \
+             ["    parameters:", "      - key: header", "        value: x-a=1"]
     if f["gate"]:
         L += ["  %s:" % f["gk"], "    processor: GenerateResponse"] + _metrics_block("    ", f["gm"], f["gl"]) + \
              ["    parameters:", "      - key: status", "        value: %d" % f["st"], "      - key: body", "        value: answered",
@@ -80,7 +88,8 @@ def flow_yaml(f):
         L += ["  %s:" % f["rk"], "    processor: Filter"] + _metrics_block("    ", f["rm"], f["rl"]) + \
              ["    parameters:", "      - key: status_code_range", "        value: 500-599"]
     L += ["flow:", "  request:"] + _edge("start", f["fk"])
-    L += _edge((f["fk"], "hit"), f["gk"] if f["gate"] else "end") + _edge((f["fk"], "miss"), "end")
+    yes, no = ("above_limit", "below_limit") if f["lim"] else ("hit", "miss")
+    L += _edge((f["fk"], yes), f["gk"] if f["gate"] else "end") + _edge((f["fk"], no), "end")
     L += ["  response:"]
     if f["rf"]:
         L += _edge("start", f["rk"]) + _edge((f["rk"], "hit"), "end") + _edge((f["rk"], "miss"), "end")
@@ -92,15 +101,36 @@ def flow_yaml(f):
 
 
 def flow(name, pat, fm=False, fl=(), gate=False, st=0, gm=False, gl=(), rf=False, rm=False, rl=()):
-    return {"name": name, "pat": list(pat), "fk": "F_" + name, "fm": fm, "fl": list(fl), "gate": gate, "st": st, "gk": "G_" + name,
-            "gm": gm, "gl": list(gl), "rf": rf, "rk": "R_" + name, "rm": rm, "rl": list(rl)}
+    return {"name": name, "pat": list(pat), "lim": False, "lq": "-", "fk": "F_" + name, "fm": fm, "fl": list(fl), "gate": gate, "st": st,
+            "gk": "G_" + name, "gm": gm, "gl": list(gl), "rf": rf, "rk": "R_" + name, "rm": rm, "rl": list(rl)}
 
 
-def cfg_event(ev, c, flows):
-    """start / reload event of a script: the metrics file c = {labels, lepp, gm, sm, gw} and the flows"""
-    return {"ev": ev, "labels": list(c["labels"]), "lepp": [list(p) for p in c["lepp"]], "lep": [url_of(p) for p in c["lepp"]],
+def lim_flow(name, pat, q, fm=False, fl=(), gm=False, gl=()):
+    f = flow(name, pat, fm, fl, True, 429, gm, gl)
+    f.update({"lim": True, "lq": q})
+    return f
+
+
+def quota(qid, pat, mx, w):
+    return {"id": qid, "pat": list(pat), "max": mx, "w": w, "inc": qid + "_QuotaProcessorInc", "grp": qid + "_default"}
+
+
+def quotas_yaml(qs):
+    L = ["quotas:"]
+    for q in qs:
+        L += ["  - id: %s" % q["id"], "    filter:", "      url: %s" % url_of(q["pat"]), "    strategy:", "      fixed_window:",
+              "        max: %d" % q["max"], "        interval: %d" % q["w"], "        interval_unit: second"]
+    return "\n".join(L) + "\n"
+
+
+def cfg_event(ev, c, flows, quotas=()):
+    """start / reload event of a script: the metrics file c = {labels, lepp, gm, sm, gw}, the flows and the quotas they refer to"""
+    files = {"flows/%s.yaml" % f["name"]: flow_yaml(f) for f in flows}
+    for host in sorted({q["pat"][0] for q in quotas}):          # the loader wants one file per host and one host per file
+        files["quotas/%s.yaml" % host.replace(".", "_")] = quotas_yaml([q for q in quotas if q["pat"][0] == host])
+    return {"ev": ev, "quotas": [dict(q) for q in quotas], "labels": list(c["labels"]), "lepp": [list(p) for p in c["lepp"]], "lep": [url_of(p) for p in c["lepp"]],
             "gm": list(c["gm"]), "sm": list(c["sm"]), "gw": c["gw"], "flows": flows, "legacy": bool(c.get("legacy", True)) and ev == "start",
-            "files": {"flows/%s.yaml" % f["name"]: flow_yaml(f) for f in flows}}
+            "files": files}
 
 
 def txn_event(i, t):
@@ -119,7 +149,9 @@ def script_of_walk(sid, walk):
     ev, n = [], 0
     for e in walk:
         if e["ev"] in ("start", "reload"):
-            ev.append(cfg_event(e["ev"], e["c"], e["fs"]))
+            ev.append(cfg_event(e["ev"], e["c"], e["fs"], e["qs"]))
+        elif e["ev"] == "tick":
+            ev.append({"ev": "tick", "d": e["d"]})
         elif e["ev"] == "txn":
             n += 1
             ev.append(txn_event(n, e["t"]))
@@ -148,7 +180,7 @@ def rand_file(rng, gw):
     return {"labels": labels, "lepp": rng.sample(LEPS, rng.choice([0, 0, 1, 1, 2])), "gm": gm, "sm": sm, "gw": gw}
 
 
-def rand_flows(rng, keyed=True):
+def rand_flows(rng, keyed, qn):
     """keyed: every processor lists processor_key among its labels, so that no two processors ever count under one label set
     (otherwise the scrape of the process fails from the first coincidence on - DEV duplicate-series - and shows nothing more)"""
     pats = rng.sample(PATS, rng.choice([0, 1, 2, 2, 3, 3, 4]))
@@ -159,12 +191,19 @@ def rand_flows(rng, keyed=True):
         if keyed and "processor_key" not in ls:
             ls.insert(rng.randint(0, len(ls)), "processor_key")
         return ls
+    qs = []
     for i, p in enumerate(pats):
+        if rng.random() < 0.25:
+            # a limiter flow on a quota of its own (ids are never reused inside a script: `qn` counts them)
+            qn[0] += 1
+            qs.append(quota("q%d" % qn[0], p, rng.choice([1, 2, 3]), rng.choice([5, 10])))
+            out.append(lim_flow("f%d" % (i + 1), p, "q%d" % qn[0], fm=rng.random() < 0.7, fl=labels(), gm=rng.random() < 0.7, gl=labels()))
+            continue
         gate = rng.random() < 0.5
         out.append(flow("f%d" % (i + 1), p, fm=rng.random() < 0.7, fl=labels(), gate=gate,
                         st=rng.choice([418, 429, 503]) if gate else 0, gm=rng.random() < 0.7, gl=labels(),
                         rf=rng.random() < 0.5, rm=rng.random() < 0.7, rl=labels()))
-    return out
+    return out, qs
 
 
 def rand_txn(rng, hot):
@@ -180,7 +219,8 @@ def rand_script(rng, sid, n):
     gw = rng.choice(["", "gw1", "gw-b"])
     files = [rand_file(rng, gw) for _ in range(3)]
     keyed = rng.random() < 0.85
-    ev = [cfg_event("start", files[0], rand_flows(rng, keyed))]
+    qn = [0]
+    ev = [cfg_event("start", files[0], *rand_flows(rng, keyed, qn))]
     hot = rng.sample(URLS, 3)
     k, pend = 0, 0
     for _ in range(n):
@@ -193,16 +233,22 @@ def rand_script(rng, sid, n):
             m = rng.randint(1, 4)
             pend = max(0, pend - m)
             ev.append({"ev": "flush", "n": m})
-        elif x < 0.78:
+        elif x < 0.76:
             ev.append({"ev": "collect"})
+        elif x < 0.79:
+            ev.append({"ev": "tick", "d": rng.choice([1, 4, 5, 6, 10, 11])})
         elif x < 0.90:
             ev.append({"ev": "scrape"})
         elif x < 0.96:
             # a reload: often back to a file loaded before (the start-up file among them), sometimes only the flows change
-            ev.append(cfg_event("reload", rng.choice(files), rand_flows(rng, keyed) if rng.random() < 0.7 else ev[0]["flows"]))
+            last = [e for e in ev if e["ev"] in ("start", "reload")][-1]
+            fq = rand_flows(rng, keyed, qn) if rng.random() < 0.7 else (last["flows"], last["quotas"])   # the same flows: the same quotas go on
+            if fq[1] and fq[1] == last["quotas"]:
+                fq = ([f for f in fq[0] if not f["lim"]], [])        # (a quota id is not carried over a reload: see assumptions)
+            ev.append(cfg_event("reload", rng.choice(files), *fq))
             ev.append({"ev": "scrape"})
         else:
-            ev += [{"ev": "flush", "n": 99}, {"ev": "scrape"}, cfg_event("start", rng.choice(files), rand_flows(rng, keyed)), {"ev": "scrape"}]
+            ev += [{"ev": "flush", "n": 99}, {"ev": "scrape"}, cfg_event("start", rng.choice(files), *rand_flows(rng, keyed, qn)), {"ev": "scrape"}]
             pend = 0
     ev += [{"ev": "flush", "n": 99}, {"ev": "collect"}, {"ev": "scrape"}]
     return script(sid, known, ev)
@@ -245,6 +291,18 @@ def class_scripts(base):
           {"ev": "flush", "n": 9}, {"ev": "scrape"}, cfg_event("reload", all_on, fs), {"ev": "scrape"}, txn_event(4, t[0]), {"ev": "flush", "n": 9},
           {"ev": "scrape"}, cfg_event("start", all_on, dup), {"ev": "scrape"}, txn_event(5, t[5]), {"ev": "flush", "n": 9}, {"ev": "scrape"}]
     out.append(script(base + 3, [["a.t", "v", "{id}"]], ev))
+    # 5: a quota of 2 per 10 s behind a limiter: admitted, refused (the gauge after a refusal), window over, admitted again, the
+    #    quota replaced by another one at a reload (the gauges of the first), a restart
+    q1, q2 = quota("q1", ["a.t", "*"], 2, 10), quota("q2", ["b.t", "*"], 1, 5)
+    l1 = [lim_flow("f6", ["a.t", "*"], "q1", True, ["flow_name", "http_method", "processor_key"])]
+    l2 = [lim_flow("f7", ["b.t", "*"], "q2", True, ["processor_key"], True, ["processor_key", "url"]), fs[1]]
+    ev = [cfg_event("start", all_on, l1, [q1]), {"ev": "scrape"}, txn_event(1, t[0]), {"ev": "scrape"}, txn_event(2, t[2]), {"ev": "scrape"},
+          txn_event(3, t[5]), {"ev": "scrape"}, txn_event(4, t[3]), {"ev": "tick", "d": 9}, {"ev": "scrape"}, {"ev": "tick", "d": 1}, {"ev": "scrape"},
+          txn_event(5, t[1]), {"ev": "scrape"}, {"ev": "flush", "n": 9}, {"ev": "collect"}, {"ev": "scrape"},
+          cfg_event("reload", coarse, l2, [q2]), {"ev": "scrape"}, txn_event(6, t[3]), txn_event(7, t[3]), txn_event(8, t[0]), {"ev": "scrape"},
+          {"ev": "tick", "d": 5}, txn_event(9, t[3]), {"ev": "flush", "n": 9}, {"ev": "scrape"},
+          cfg_event("start", all_on, fs, []), {"ev": "scrape"}]
+    out.append(script(base + 4, [["a.t", "v", "{id}"]], ev))
     return out
 
 
@@ -386,11 +444,11 @@ def judge(ctx, binary, scripts, tag, stats, par=4, chunk=40):
 
 # ------------------------------------------------------------------------------------------------------ TLC
 def write_cfg(sd, name, bug, prof, inv):
-    tx, fl, rl, rs, sc, co, files, flows = prof
+    tx, fl, rl, rs, sc, co, files, flows, tk = prof
     open(os.path.join(sd, name), "w").write(
         "SPECIFICATION Spec\nCONSTANTS\n  Params = {\"{id}\", \"{x}\"}\n  Bug = \"%s\"\n  MaxTxn = %d\n  MaxFlush = %d\n  MaxReload = %d\n"
-        "  MaxRestart = %d\n  MaxScrape = %d\n  MaxCollect = %d\n  FileSel = %s\n  FlowSel = %s\nINVARIANTS %s\nCHECK_DEADLOCK FALSE\n" % (
-            bug, tx, fl, rl, rs, sc, co, files, flows, inv))
+        "  MaxRestart = %d\n  MaxScrape = %d\n  MaxCollect = %d\n  MaxTick = %d\n  FileSel = %s\n  FlowSel = %s\nINVARIANTS %s\nCHECK_DEADLOCK FALSE\n" % (
+            bug, tx, fl, rl, rs, sc, co, tk, files, flows, inv))
     return name
 
 
@@ -452,7 +510,8 @@ def run(ctx):
                                "always-200 stand-in of HAProxy's admin API", "projection of the registry: family, labels, value x 1000 rounded, value > 0"]
     ctx.assumptions += ["the plugin's known-endpoints tree is constant during a script and its inference threshold (50) is never reached",
                         "two flushes are at least one mtime tick apart (production: seconds)",
-                        "flows of the generated shape only (Filter on x-a, optional GenerateResponse, optional response-side status Filter); no quota",
+                        "flows of the generated shape only (Filter on x-a or Limiter, optional GenerateResponse, optional response-side status Filter); "
+                        "quotas: ungrouped fixed windows, one per limiter flow, a quota id is not used again after a reload inside one lifetime",
                         "sequential traffic", "the histogram managers' tickers are replaced by explicit collection ticks (export under the verif tag)",
                         "the policy-mode LegacyMetricManager runs next to a flows-mode engine (it reads nothing but the discovery state file)"]
     model_checking(ctx)
